@@ -46,6 +46,21 @@ def hdr_path(st, hid):
     return st['incdirs'][h['dir']] + '/' + h['name']
 
 
+def exe_name(st):
+    return st.get('exe_name') or 'prog'
+
+
+def lib_name(st):
+    return st.get('lib_name') or 'core'
+
+
+def tu_target(st, tid):
+    """Name of the build-directory tree the TU's object lands in (<target>.int/...)."""
+    if st['tus'][tid].get('lib') and tid != '0':
+        return 'lib' + lib_name(st)
+    return exe_name(st)
+
+
 def _cxx(st):
     return st['lang'] == 'c++'
 
@@ -260,12 +275,15 @@ def render_bfg(st):
         else:
             exe_extra = extra + ', pch=%r' % st['pch']['file']
     if libt:
-        L.append("core = static_library('core', files=[%s]%s)" % (
+        L.append("core = static_library(%r, files=[%s]%s)" % (
+            lib_name(st),
             ', '.join(repr(st['tus'][t]['file']) for t in libt), extra))
-        L.append("prog = executable('prog', files=[%s], libs=[core]%s)" % (
+        L.append("prog = executable(%r, files=[%s], libs=[core]%s)" % (
+            exe_name(st),
             ', '.join(repr(st['tus'][t]['file']) for t in exet), exe_extra))
     else:
-        L.append("prog = executable('prog', files=[%s]%s)" % (
+        L.append("prog = executable(%r, files=[%s]%s)" % (
+            exe_name(st),
             ', '.join(repr(st['tus'][t]['file']) for t in exet), exe_extra))
     L.append('default(prog)')
     return '\n'.join(L) + '\n'
@@ -494,6 +512,63 @@ def directed_repeat(lang, chars, incmode='hdrdir'):
         hist.append({'op': 'del_header', 'h': str(i)})
     hist += [{'op': 'noop'}, {'op': 'clean'}]
     return st, hist
+
+
+# --------------------------------------------------------------------------
+# special characters in the path of the OBJECT files: source file names, source
+# sub-directories, target names (<target>.int/<dir>/<source>.o and its .d)
+
+# Not drawn for object paths: % * ? [ ] ( ) ' : and a leading ~/space (bfg9000's Makefiles
+# cannot build them: C04's findings) and the comma (it splits the arguments of the
+# $(call RULE_..._LINK,...) in the link recipe - same C04 finding, with a real linker even
+# a lone comma fails)
+OBJ_CHARS_QUICK = [' ', '#', '+', '@', '=', '$']
+OBJ_CHARS_ALL = [' ', '#', '+', '@', '=', '$', '&', '!', '{', '}', '~', '^', '<', '>',
+                 ';', '|', '`']
+
+
+def directed_objpath(lang, c, incmode='hdrdir'):
+    """Four TUs whose objects differ in where the character sits: main (plain, in the
+    executable), s<c>d/tu1 (source sub-directory), tu<c>2 (source file name), tul (plain
+    source in the static library co<c>re).  Plain header names; every TU reaches h1 through
+    h2, so one header edit must recompile all four."""
+    ext = '.cpp' if lang == 'c++' else '.c'
+    H = {'1': {'name': 'h1.h', 'plain': 'h1.h', 'dir': 0, 'base': 5, 'inc': []},
+         '2': {'name': 'h2.h', 'plain': 'h2.h', 'dir': 0, 'base': 7, 'inc': [['1', 2]]},
+         '3': {'name': 'h3.h', 'plain': 'h3.h', 'dir': 0, 'base': 9, 'inc': []}}
+    T = {'0': {'file': 'main' + ext, 'base': 1, 'lib': False, 'inc': [['2', 3], ['3', 1]]},
+         '1': {'file': 's%sd/tu1%s' % (c, ext), 'file_plain': 'sd/tu1' + ext, 'base': 2,
+               'lib': False, 'inc': [['2', 4], ['3', 2]]},
+         '2': {'file': 'tu%s2%s' % (c, ext), 'file_plain': 'tu2' + ext, 'base': 3,
+               'lib': False, 'inc': [['2', 5], ['3', 3]]},
+         '3': {'file': 'tul' + ext, 'base': 4, 'lib': True, 'inc': [['2', 6], ['3', 4]]}}
+    st = {'lang': lang, 'incmode': incmode, 'incdirs': ['inc'], 'incdirs_plain': ['inc'],
+          'headers': H, 'tus': T, 'lib_name': 'co%sre' % c}
+    hist = [{'op': 'mod_header', 'h': '1', 'base': 6}, {'op': 'noop'},
+            {'op': 'rename_header', 'h': '2', 'name': 'h2r.h', 'plain': 'h2r.h', 'base': 8},
+            {'op': 'del_header', 'h': '3'}, {'op': 'mod_header', 'h': '1', 'base': 11},
+            {'op': 'noop'}, {'op': 'clean'}]
+    return st, hist
+
+
+def add_objnames(rng, st, chars):
+    """Give some sources, source directories and the targets of a generated project names
+    with special characters (plain fallbacks are kept for what calibration refuses)."""
+    ext = src_ext(st)
+    for tid, t in st['tus'].items():
+        if rng.random() < 0.5:
+            c = rng.choice(chars)
+            d = rng.choice(chars)
+            stem = 'main' if tid == '0' else 'tu' + tid
+            t['file_plain'] = t['file']
+            t['file'] = rng.choice(['%(s)s%(c)sx', '%(s)s%(c)s%(d)sx', 'a%(c)sb/%(s)s',
+                                    'a%(c)sb/%(s)s%(d)sy', '%(s)s%(c)sx%(c)sy']) % {
+                's': stem, 'c': c, 'd': d} + ext
+    if rng.random() < 0.6:
+        st['exe_name'] = 'pr%sog' % rng.choice(chars)
+    if any(t.get('lib') for t in st['tus'].values()) and rng.random() < 0.6:
+        st['lib_name'] = 'co%sre' % rng.choice(chars)
+    return st
 
 
 # --------------------------------------------------------------------------
